@@ -1,3 +1,285 @@
-"""Molfile text generators (filled in with the MolV3000 / MolV2000 work)."""
+"""Seeded generators of molfile texts for an abstract molecule (code -> spec direction): the spelling freedom of
+V3000 and V2000 that the properties list.  The texts are judged by the specification's decoders, so nothing here
+is an oracle; the abstract molecule travels along only so that the decoder itself is cross-checked."""
+from __future__ import annotations
+import random, itertools
+import gen
+
+ATOM_EXTRAS = ["CFG=1", "VAL=2", "HCOUNT=1", "STBOX=1", "INVRET=1", "EXACHG=1", "SUBST=2", "UNSAT=1", "RBCNT=2", "ATTCHPT=1",
+               "CLASS=AA", "SEQID=3", "RGROUPS=(1 2)", "ATTCHORD=(4 1 Al 2 Br)"]
+BOND_EXTRAS = ["CFG=1", "TOPO=1", "RXCTR=4", "STBOX=1", "DISP=COORD"]
+COORDS = ["0", "0.0", "1.25", "-2", "3.", "-0.0001", "1e3", "12.5000", "-7.125", "100.5", "0.000001", "-12345.678"]
+
+
+def abstract_molecule(rng, nmax=7, pool=None, coords=COORDS, bigmass=False):
+    n = rng.randint(1, nmax)
+    pool = pool or rng.choice([["C", "H", "O", "N"], ["C", "H", "H", "H", "O"], ["H", "Cl", "Cs", "C", "Co"], gen.SYMBOLS])
+    atoms = []
+    for _ in range(n):
+        s = rng.choice(pool)
+        atoms.append({"sym": s, "chg": rng.choice([0, 0, 0, 1, -1, 2, -3, 3]), "rad": rng.choice([0, 0, 0, 2, 1, 3]),
+                      "mass": (rng.choice([0, 0, 2, 3, 13, 14, 17, 256 if bigmass else 35]) if s != "H" else rng.choice([0, 0, 2, 3, 1])),
+                      "x": rng.choice(coords), "y": rng.choice(coords), "z": rng.choice(coords)})
+    bonds = [(p, q, rng.choice([1, 1, 2, 3, 4, 9])) for p, q in itertools.combinations(range(n), 2) if rng.random() < rng.choice([0.2, 0.5])]
+    return {"atoms": atoms, "bonds": bonds}
+
+
+def from_graph(g):
+    """abstract molecule of a library graph (labels 0..n-1, listed in label order)"""
+    atoms = []
+    for a in range(g.number_of_nodes()):
+        d = g.nodes[a]
+        atoms.append({"sym": d["element_symbol"], "chg": d.get("chg", 0), "rad": d.get("rad", 0), "mass": d.get("mass", 0),
+                      "x": repr(float(d.get("x_coord", 0))), "y": repr(float(d.get("y_coord", 0))), "z": repr(float(d.get("z_coord", 0)))})
+    bonds = [(min(a, b), max(a, b), d.get("bond_type", 1)) for a, b, d in g.edges(data=True)]
+    return {"atoms": atoms, "bonds": sorted(bonds)}
+
+
+def mol_event(M):
+    return {"atoms": [dict(a) for a in M["atoms"]], "bonds": [[p, q, t] for p, q, t in sorted(M["bonds"])]}
+
+
+def floats_of(M, extra=()):
+    fl = {"": "0.0"}
+    for a in M["atoms"]:
+        for k in "xyz":
+            if a[k] != "":
+                fl[a[k]] = repr(float(a[k]))
+    for t in extra:
+        try:
+            fl[t] = repr(float(t))
+        except ValueError:
+            pass
+    return fl
+
+
+def _join(toks, rng, wide):
+    out = toks[0]
+    for t in toks[1:]:
+        out += " " * (rng.choice([1, 1, 2, 3, 5]) if wide else 1) + t
+    return out
+
+
+def render_v3000(M, rng, perm=None, opts=None):
+    """perm: atom k of M is written as the perm[k]-th atom line (default identity) -> the reader numbers it perm[k].
+    Returns (lines, info)."""
+    o = {"wide": rng.random() < 0.4, "defaults": rng.random() < 0.3, "dt": rng.random() < 0.5, "extras": rng.random() < 0.4,
+         "star": rng.random() < 0.3, "cont": rng.choice([0, 0, 1, 2, 4]), "trail": rng.random() < 0.3, "tailblank": rng.random() < 0.2,
+         "indices": rng.choice(["identity", "shuffled", "gappy", "big"]), "header": rng.random() < 0.5}
+    o.update(opts or {})
+    n = len(M["atoms"])
+    perm = list(perm) if perm is not None else list(range(n))
+    order = sorted(range(n), key=lambda k: perm[k])               # atom of M written at each file position
+    if o["indices"] == "identity":
+        idx_at_pos = list(range(1, n + 1))
+    elif o["indices"] == "shuffled":
+        idx_at_pos = list(range(1, n + 1)); rng.shuffle(idx_at_pos)
+    elif o["indices"] == "gappy":
+        idx_at_pos = rng.sample(range(1, 5 * n + 20), n)
+    else:
+        idx_at_pos = rng.sample(range(900, 99999), n)
+    idx = {order[p]: idx_at_pos[p] for p in range(n)}              # atom of M -> written index
+    used = set(idx_at_pos)
+    body = []
+    alines = []
+    for k in order:
+        a = M["atoms"][k]
+        sym = a["sym"]
+        props = []
+        dt = o["dt"] and sym == "H" and a["mass"] in (2, 3)
+        if dt:
+            sym = "D" if a["mass"] == 2 else "T"
+        for key, v in (("CHG", a["chg"]), ("RAD", a["rad"]), ("MASS", a["mass"])):
+            if key == "MASS" and dt:
+                if o["defaults"] and rng.random() < 0.5:
+                    props.append("MASS=0")        # the default written out next to a D / T symbol: still deuterium / tritium
+                continue
+            if v:
+                props.append(f"{key}={v}")
+            elif o["defaults"] and rng.random() < 0.7:
+                props.append(f"{key}=0")
+        if o["extras"]:
+            for _ in range(rng.choice([0, 1, 1, 2])):
+                props.append(rng.choice(ATOM_EXTRAS))
+        rng.shuffle(props)
+        alines.append(_join([str(idx[k]), sym, a["x"], a["y"], a["z"], "0"] + props, rng, o["wide"]))
+    # star atoms: groups of bonds sharing an endpoint and a type
+    bonds = list(M["bonds"])
+    rng.shuffle(bonds)
+    star_lines, star_bonds = [], []
+    if o["star"] and bonds:
+        for _ in range(rng.choice([1, 1, 2])):
+            if not bonds:
+                break
+            p, q, t = bonds[0]
+            centre = rng.choice([p, q])
+            grp = [b for b in bonds if centre in b[:2] and b[2] == t]
+            grp = grp[:rng.randint(1, len(grp))]
+            bonds = [b for b in bonds if b not in grp]
+            si = max(used) + rng.randint(1, 9)
+            used.add(si)
+            star_lines.append(_join([str(si), "*", "0", "0", "0", "0"], rng, o["wide"]))
+            others = [b[1] if b[0] == centre else b[0] for b in grp]
+            ends = [str(si), str(idx[centre])]
+            if rng.random() < 0.5:
+                ends.reverse()
+            star_bonds.append((t, ends, others))
+    # star atom lines may sit anywhere in the atom block
+    for sl in star_lines:
+        alines.insert(rng.randint(0, len(alines)), sl)
+    blines = []
+    entries = [("b", b) for b in bonds] + [("s", sb) for sb in star_bonds]
+    rng.shuffle(entries)
+    for j, (kind, b) in enumerate(entries, 1):
+        if kind == "b":
+            p, q, t = b
+            e = [str(idx[p]), str(idx[q])]
+            if rng.random() < 0.5:
+                e.reverse()
+            ex = [rng.choice(BOND_EXTRAS)] if o["extras"] and rng.random() < 0.4 else []
+            blines.append(_join([str(j), str(t)] + e + ex, rng, o["wide"]))
+        else:
+            t, ends, others = b
+            ep = "ENDPTS=(" + " ".join([str(len(others))] + [str(idx[x]) for x in others]) + ")"
+            tail = [ep, "ATTACH=" + rng.choice(["ALL", "ANY"])]
+            if rng.random() < 0.5:
+                tail.reverse()
+            blines.append(_join([str(j), str(t)] + ends, rng, o["wide"]) + " " + " ".join(tail))
+    body.append("BEGIN CTAB")
+    body.append(_join(["COUNTS", str(len(alines)), str(len(blines)), "0", "0", "0"], rng, o["wide"]))
+    body.append("BEGIN ATOM"); body += alines; body.append("END ATOM")
+    if blines or rng.random() < 0.2:
+        body.append("BEGIN BOND"); body += blines; body.append("END BOND")
+    if o["trail"]:
+        body += ["BEGIN SGROUP", f"1 DAT 0 ATOMS=(1 {idx_at_pos[0]}) FIELDNAME=CHG FIELDDATA=MASS=7", "END SGROUP",
+                 "BEGIN COLLECTION", f"MDLV30/STEABS ATOMS=(1 {idx_at_pos[0]})", "END COLLECTION"]
+    body.append("END CTAB")
+    phys = []
+    for content in body:
+        parts = [content]
+        k = o["cont"] if content[:5] not in ("BEGIN", "END C", "END A", "END B", "END S") or rng.random() < 0.2 else 0
+        for _ in range(k if rng.random() < 0.6 else 0):
+            last = parts[-1]
+            if len(last) < 2:
+                break
+            cut = rng.randint(1, len(last) - 1)
+            parts[-1:] = [last[:cut] + "-", last[cut:]]
+        for i, p in enumerate(parts):
+            tb = "  " if (o["tailblank"] and i == len(parts) - 1 and rng.random() < 0.5) else ""
+            phys.append("M  V30 " + p + tb)
+    head = ["", "  SPEC      0101000000", "", "  0  0  0     0  0            999 V3000"]
+    if o["header"]:
+        head[0] = rng.choice(["water", "a name - with a dash-", "M  END", "   "])
+        head[2] = rng.choice(["comment CHG=5 MASS=3", "M  V30 not a block line", ""])
+    lines = head + phys + ["M  END"]
+    if o["trail"]:
+        lines += ["> <DATA>", "M  V30 1 C 0 0 0 0 MASS=9", "", "$$$$"]
+    return lines, {"perm": perm, "opts": o}
+
+
+def _i3(v):
+    return f"{v:3d}"
+
+
+CODE = {3: 1, 2: 2, 1: 3, -1: 5, -2: 6, -3: 7}
+
+
+def block_expressible(a):
+    return (a["chg"] == 0 and a["rad"] == 0) or (a["rad"] == 0 and a["chg"] in CODE) or (a["rad"] == 2 and a["chg"] == 0)
+
+
+def fits_v2000(M):
+    return len(M["atoms"]) <= 999 and all(len(a[k]) <= 10 for a in M["atoms"] for k in "xyz") and \
+        all(abs(a["chg"]) <= 15 and 0 <= a["mass"] <= 999 for a in M["atoms"])
+
+
+def render_v2000(M, rng, perm=None, opts=None):
+    n = len(M["atoms"])
+    perm = list(perm) if perm is not None else list(range(n))
+    order = sorted(range(n), key=lambda k: perm[k])
+    pos = {k: perm[k] + 1 for k in range(n)}                 # atom of M -> its number in the file
+    expressible = all(block_expressible(a) for a in M["atoms"])
+    o = {"mode": rng.choice(["block", "lines", "both", "stale"] if expressible else ["lines", "stale"]), "group": rng.randint(1, 8),
+         "zeros": rng.random() < 0.25, "dt": rng.random() < 0.5, "isodt": rng.random() < 0.3, "extra": rng.random() < 0.3,
+         "lists": rng.random() < 0.2, "trail": rng.random() < 0.25, "order": rng.choice(["cri", "irc", "mixed"])}
+    o.update(opts or {})
+    lines = ["", "  SPEC      0101000000", ""]
+    alist = ["  1 F    2   6   7", "  1 T    1   8"] if o["lists"] else []
+    lines.append(f"{n:3d}{len(M['bonds']):3d}{len(alist):3d}  0  0  0  0  0  0  0999 V2000")
+    for k in order:
+        a = M["atoms"][k]
+        sym = a["sym"]
+        use_dt = o["dt"] and sym == "H" and a["mass"] in (2, 3)
+        if use_dt:
+            sym = "D" if a["mass"] == 2 else "T"
+        if o["mode"] in ("block", "both"):
+            code = 4 if a["rad"] == 2 and a["chg"] == 0 else (CODE.get(a["chg"], 0) if a["rad"] == 0 else 0)
+        elif o["mode"] == "stale":
+            code = rng.choice([0, 1, 3, 4, 5, 7])
+        else:
+            code = 0
+        lines.append(f"{a['x']:>10}{a['y']:>10}{a['z']:>10} {sym:<3} 0{code:3d}  0  0  0  0  0  0  0  0  0  0")
+    bl = list(M["bonds"]); rng.shuffle(bl)
+    for p, q, t in bl:
+        e = [pos[p], pos[q]]
+        if rng.random() < 0.5:
+            e.reverse()
+        lines.append(f"{e[0]:3d}{e[1]:3d}{t:3d}  0  0  0  0")
+    lines += alist
+
+    def plines(tag, ents):
+        ents = list(ents)
+        if rng.random() < 0.5:
+            rng.shuffle(ents)
+        out = []
+        while ents:
+            g = o["group"] if rng.random() < 0.7 else rng.randint(1, 8)
+            chunk, ents = ents[:g], ents[g:]
+            out.append(f"M  {tag}{len(chunk):3d}" + "".join(f" {i:3d} {v:3d}" for i, v in chunk))
+        return out
+    with_lines = o["mode"] in ("lines", "both", "stale")
+    chg = [(pos[k], a["chg"]) for k, a in enumerate(M["atoms"]) if a["chg"] or (o["zeros"] and rng.random() < 0.5)]
+    rad = [(pos[k], a["rad"]) for k, a in enumerate(M["atoms"]) if a["rad"] or (o["zeros"] and rng.random() < 0.5)]
+    iso = [(pos[k], a["mass"]) for k, a in enumerate(M["atoms"])
+           if a["mass"] and (not (o["dt"] and a["sym"] == "H" and a["mass"] in (2, 3)) or o["isodt"])]
+    C = plines("CHG", chg) if with_lines else []
+    R = plines("RAD", rad) if with_lines else []
+    if o["mode"] == "stale" and not C and not R:
+        C = [f"M  CHG  1 {1:3d} {0:3d}"]                     # something has to supersede the stale codes
+    I = plines("ISO", iso)
+    extra = ["M  STY  1   1 SUP", "M  SAL   1  1   1", "M  SMT   1 Me", "A    1", "an alias", "V    1 a value", "G    1  1", "Et",
+             "M  ALS   1  2 F C   N   ", "M  RGP  1   1   1"] if o["extra"] else []
+    blocks = {"cri": [C, R, extra, I], "irc": [I, extra, R, C], "mixed": None}[o["order"]]
+    if blocks is None:
+        allp = C + R + I
+        rng.shuffle(allp)
+        blocks = [allp[:len(allp) // 2], extra, allp[len(allp) // 2:]]
+    for b in blocks:
+        lines += b
+    lines.append("M  END")
+    if o["trail"]:
+        lines += ["> <NOTE>", "M  CHG  1   1   1", "M  RAD  1   1   2", "M  ISO  1   1  15", "", "$$$$", "second", "", "",
+                  "  1  0  0  0  0  0  0  0  0  0999 V2000", "    0.0000    0.0000    0.0000 C   0  4  0  0  0  0  0  0  0  0  0  0",
+                  "M  RAD  1   1   2", "M  ISO  1   1  14", "M  END", "$$$$"]
+    return lines, {"perm": perm, "opts": o}
+
+
 def reader_stress_texts(rng, tier):
-    return []
+    """texts whose reading feeds C05: explicit zeros, D / T next to ISO entries (also zero-valued ones), both attributes on one
+    atom, and spellings a tolerant reader might start to accept (upper-case symbols)"""
+    out = []
+    n = 90 if tier == "quick" else 900
+    for i in range(n):
+        M = abstract_molecule(rng, 6, pool=rng.choice([["C", "H", "O", "Cl", "Br", "Na"], ["H", "H", "O", "C"]]), coords=["0", "1.5", "-2.25"])
+        if rng.random() < 0.5 and fits_v2000(M):
+            lines, info = render_v2000(M, rng, opts={"zeros": True} if rng.random() < 0.5 else None)
+            if rng.random() < 0.5:      # zero-valued ISO entries, preferably on D / T atoms
+                dts = [k for k, a in enumerate(M["atoms"]) if a["sym"] == "H" and a["mass"] in (2, 3)]
+                k = rng.choice(dts) if dts and rng.random() < 0.8 else rng.randrange(len(M["atoms"]))
+                lines.insert(lines.index("M  END"), f"M  ISO  1 {info['perm'][k] + 1:3d} {0:3d}")
+            if rng.random() < 0.3:      # upper-case two-letter symbols
+                lines = [l[:31] + l[31:34].upper() + l[34:] if len(l) > 60 and l[30] == " " and "V2000" not in l else l for l in lines]
+        else:
+            lines, _ = render_v3000(M, rng, opts={"defaults": True} if rng.random() < 0.5 else None)
+        out.append((f"t{i}", "\n".join(lines)))
+    return out
